@@ -5,7 +5,7 @@
    order, calls whose payload the receiver discards, connection loss at any point. *)
 From Coq Require Import ZArith List Bool.
 Import ListNotations.
-Require Import Verif.lib.PyLite Verif.gen.RefsGen Verif.lib.Refs Verif.lib.RefsProofs Verif.lib.Gifts Verif.lib.GiftsProofs.
+Require Import Verif.lib.PyLite Verif.gen.RefsGen Verif.lib.Refs Verif.lib.RefsProofs Verif.lib.Gifts Verif.lib.GiftsProofs Verif.lib.Conn Verif.lib.ConnProofs.
 Local Open Scope Z_scope.
 
 (* the counting invariant behind everything else, for every reachable state:
@@ -144,3 +144,56 @@ Theorem C09_no_gift_leak : forall ops,
   let s := trun tinit ops in tquiescent s -> gifts s = [].
 Proof. exact no_gift_leak. Qed.
 Print Assumptions C09_no_gift_leak.
+
+(* the counting invariant does not depend on how freeYourReferenceTracker deletes the import-table entry: the candidate
+   repair of D16 (deletion by identity) leaves every C09 statement intact *)
+Theorem C09_count_invariant_any_deletion_rule : forall k ops c,
+  let s := run_k k init ops in
+  rc (o_tab (ow s)) c = recv_sum (h_trk (hd s)) c + inflight (ch_oh s) c + decs (ch_ho s) c + cnt (leaked s) c.
+Proof. exact count_invariant_k. Qed.
+Print Assumptions C09_count_invariant_any_deletion_rule.
+
+(* ---- BOTH directions of one connection at once (lib/Conn.v): A exports to B while B exports to A, the two physical FIFOs
+   each carrying the interleaved messages of both directions, for ALL interleavings of local actions and deliveries.
+   Product theorem: each direction's state is a reachable state of the one-direction model, so every theorem above about
+   `run init ops` holds for it ... *)
+Theorem C09_directions_independent : forall ops,
+  let s := srun sinit ops in
+  (exists opsA, dA s = run init opsA) /\ (exists opsB, dB s = run init opsB) /\ lost (dA s) = lost (dB s).
+Proof. exact directions_independent. Qed.
+Print Assumptions C09_directions_independent.
+
+(* ... the shared FIFOs are faithful: the tag lists are exactly a merge of the two directions' queues (a delivery always
+   finds the message its tag announces) ... *)
+Theorem C09_fifo_is_a_merge : forall ops,
+  let s := srun sinit ops in
+  cnt_inst IA (tAB s) = List.length (ch_oh (dA s)) /\ cnt_inst IB (tAB s) = List.length (ch_ho (dB s)) /\
+  cnt_inst IA (tBA s) = List.length (ch_ho (dA s)) /\ cnt_inst IB (tBA s) = List.length (ch_oh (dB s)).
+Proof. exact fifo_is_a_merge. Qed.
+Print Assumptions C09_fifo_is_a_merge.
+
+(* ... hence the counting invariant and "never reuses an id" hold for both export tables at once *)
+Theorem C09_sym_count_invariant : forall ops c,
+  let s := srun sinit ops in
+  (rc (o_tab (ow (dA s))) c = recv_sum (h_trk (hd (dA s))) c + inflight (ch_oh (dA s)) c + decs (ch_ho (dA s)) c + cnt (leaked (dA s)) c) /\
+  (rc (o_tab (ow (dB s))) c = recv_sum (h_trk (hd (dB s))) c + inflight (ch_oh (dB s)) c + decs (ch_ho (dB s)) c + cnt (leaked (dB s)) c).
+Proof. exact sym_count_invariant. Qed.
+Print Assumptions C09_sym_count_invariant.
+
+Theorem C09_sym_no_reuse : forall ops,
+  let s := srun sinit ops in
+  NoDup (map fst (o_alloc (ow (dA s)))) /\ NoDup (map oe_clid (o_tab (ow (dA s)))) /\
+  NoDup (map fst (o_alloc (ow (dB s)))) /\ NoDup (map oe_clid (o_tab (ow (dB s)))).
+Proof. exact sym_no_reuse. Qed.
+Print Assumptions C09_sym_no_reuse.
+
+(* "when the connection is lost both sides forget everything", for the whole Broker pair: both export tables, both import
+   tables, all four queues, the gift tables (myGifts, myGiftsByGiftID), the calls parsed but never run
+   (inboundDeliveryQueue) together with their activeLocalCalls entries (fix 30b3768) -- which tables finish() empties is
+   read from the source (finish_clears_*, finish_drops_undelivered_calls) -- and it stays that way.  What remains in
+   activeLocalCalls are only calls that were already running. *)
+Theorem C09_sym_loss_forgets : forall ops1 ops2,
+  let s := srun sinit (ops1 ++ SLost :: ops2) in
+  forgotten (dA s) /\ forgotten (dB s) /\ tAB s = [] /\ tBA s = [] /\ qforgotten (xA s) /\ qforgotten (xB s).
+Proof. exact sym_loss_forgets. Qed.
+Print Assumptions C09_sym_loss_forgets.
